@@ -17,8 +17,9 @@ Open Scope N_scope.
 (* reconciler/types.go StatusKind (Unset never occurs for objects handled by the harness) *)
 Inductive skind := Pending | Refreshing | Done | Error.
 
-(* the reconciled object: primary key, payload version (the "contents"), our Status.Kind and Status.ID *)
-Record obj := mkObj { o_pk : N; o_ver : N; o_kind : skind; o_sid : N }.
+(* the reconciled object: primary key, payload version (the "contents"), our Status.Kind and Status.ID, and
+   o_aux: the data only OTHER writers change (a second reconciler's status; the harness field Other) *)
+Record obj := mkObj { o_pk : N; o_ver : N; o_kind : skind; o_sid : N; o_aux : N }.
 
 (* retries.go exponentialBackoff.Duration(attempt): float64(min)*2^attempt, capped by max.
    Exact on naturals below 2^53 ns; +Inf > max also yields max. *)
